@@ -109,6 +109,7 @@ fn main() {
                 "c03_inl" => ("C03", c01::part_c03_inlined(tier)),
                 "c19_regs" => ("C19", c19r::part_registers(tier, "C19")),
                 "c04_c" => ("C04", c04::part_c_binary(tier)),
+                "c16_blocked" => ("C16", mt::part_c16_blocked_thread(tier)),
                 "c05_sig" => ("C05", c05c::part_signal_frames(tier)),
                 "c05_c" => ("C05", c05c::part_c_frames(tier)),
                 "c05_opt" => ("C05", c19r::part_registers(tier, "C05")),
@@ -275,6 +276,7 @@ fn run_check(id: &str, tier: Tier) -> i32 {
             let mut r = Report::new("C16", tier, "exploration");
             r.parts.push(c16::part_sweep(tier));
             r.parts.push(c06s::part_vard(tier));
+            r.parts.push(mt::part_c16_blocked_thread(tier));
             finish(r)
         }
         "C19" => {
